@@ -4,6 +4,7 @@ what justifies a create call and what justifies a delete call of `syncJobTasks` 
 `syncOne`, in terms of the ORIGINAL state and cached Job.  Core Lean only.
 -/
 import FurikoModel.Proofs.JobCtlPlanSync
+import FurikoModel.Proofs.StatusLemmas
 
 namespace Furiko.JobCtlPlan
 open Furiko Furiko.JobCtl Furiko.WQ
@@ -39,13 +40,88 @@ theorem shouldKillJob_iff (clk : Int) (rj : Job) :
 
 /-- why a delete call of a `syncJobTasks` pass was issued, in terms of the original state `s`,
 the cached Job `rj`, and a task `t` of the task list after the creation step -/
-inductive DeleteReason (s : Sys) (rj rj1 : Job) (c : Call) (t : Task) : Prop
-  | pendingTimeout (T : Int) : c.force = false → getPendingTimeout rj s.cfg = some T → 0 < T →
-      isPending t = true → pendDeadline T t ≤ s.clock → t.deletionTimestamp = none → DeleteReason s rj rj1 c t
+inductive DeleteReason (s : Sys) (rj rj1 : Job) (tasks1 : List Task) (c : Call) (t : Task) : Prop
+  | pendingTimeout (T : Int) (rj2 : Job) : c.force = false → getPendingTimeout rj s.cfg = some T → 0 < T →
+      -- `rj2`: the Job after the status refresh that precedes the step; the task is judged by the ref
+      -- recorded there under its name (`pendRef`), the task's own ref only when none is recorded
+      rj2.status.tasks = generateTaskRefs s.clock rj1.status.tasks tasks1 →
+      isPending (pendRef rj2 t) = true → pendDeadline T (pendRef rj2 t) ≤ s.clock → t.deletionTimestamp = none →
+      DeleteReason s rj rj1 tasks1 c t
   | kill (rj' : Job) : c.force = false → isTaskFinished t = false → t.deletionTimestamp = none →
-      SameSpec rj1 rj' → shouldKillJob s.clock rj' = true → DeleteReason s rj rj1 c t
+      SameSpec rj1 rj' → shouldKillJob s.clock rj' = true → DeleteReason s rj rj1 tasks1 c t
   | forceDelete (dts : Int) : c.force = true → 0 < getForceDeleteTimeout s.cfg → forbidsForce rj = false →
-      t.deletionTimestamp = some dts → dts + getForceDeleteTimeout s.cfg ≤ s.clock → DeleteReason s rj rj1 c t
+      t.deletionTimestamp = some dts → dts + getForceDeleteTimeout s.cfg ≤ s.clock → DeleteReason s rj rj1 tasks1 c t
+
+/-- … and shows no more than the task and the ref recorded before together -/
+theorem getTaskRef_sub (e : Option TaskRef) (t : Task) :
+    ((getTaskRef e t).finishTimestamp = none →
+      t.ref.finishTimestamp = none ∧ ∀ ex, e = some ex → ex.finishTimestamp = none) ∧
+    ((getTaskRef e t).runningTimestamp = none →
+      t.ref.runningTimestamp = none ∧ ∀ ex, e = some ex → ex.runningTimestamp = none) := by
+  unfold getTaskRef
+  cases e with
+  | none =>
+    simp only
+    split <;> exact ⟨fun h => ⟨h, fun _ h' => by cases h'⟩, fun h => ⟨h, fun _ h' => by cases h'⟩⟩
+  | some ex =>
+    simp only
+    cases hf : t.ref.finishTimestamp <;> cases hr : t.ref.runningTimestamp <;>
+      cases hxf : ex.finishTimestamp <;> cases hxr : ex.runningTimestamp <;>
+      simp [hf, hr, hxf, hxr] <;> (try split) <;> simp_all
+
+/-- what a pending verdict on the RECORDED ref says (repair of F32).  `rj2` is the Job after the status
+refresh over the task list `tasks` (refs before: `ex`), `t` a listed task the step judged pending.  Then the
+ref it was judged by is the `GetTaskRef` of a listed task `t'` of the same name — so `t'` itself, as read from
+its pod in this pass, reports neither a running nor a finish timestamp — and the ref that was recorded under
+that name BEFORE the refresh (if any) shows neither. -/
+theorem pending_judged (now : Time) (ex : List TaskRef) (tasks : List Task) (rj2 : Job) (t : Task)
+    (hok : ∀ x ∈ tasks, x.ref.name = x.name) (hts : rj2.status.tasks = generateTaskRefs now ex tasks)
+    (ht : t ∈ tasks) (hp : isPending (pendRef rj2 t) = true) :
+    ∃ t' ∈ tasks, t'.name = t.name ∧ t'.ref.runningTimestamp = none ∧ t'.ref.finishTimestamp = none ∧
+      (pendRef rj2 t).creationTimestamp = t'.ref.creationTimestamp ∧
+      ∀ e, lookupRef ex t.name = some e → e.runningTimestamp = none ∧ e.finishTimestamp = none := by
+  unfold isPending at hp
+  simp only [Bool.and_eq_true, Option.isNone_iff_eq_none] at hp
+  have hmem : getTaskRef (lookupRef ex t.name) t ∈ rj2.status.tasks := by
+    rw [hts]; unfold generateTaskRefs
+    rw [StatusLemmas.mem_sortTaskRefs]
+    exact List.mem_append_left _ (List.mem_map.mpr ⟨t, ht, rfl⟩)
+  unfold pendRef findTaskRef at hp ⊢
+  cases hfind : rj2.status.tasks.find? (fun r => r.name == t.name) with
+  | none =>
+    exfalso
+    have := List.find?_eq_none.mp hfind _ hmem
+    simp only [StatusLemmas.getTaskRef_name, hok t ht, beq_self_eq_true, not_true_eq_false] at this
+  | some r =>
+    simp only [hfind, Option.getD_some] at hp ⊢
+    have hr : r ∈ rj2.status.tasks := List.mem_of_find?_eq_some hfind
+    have hn : r.name = t.name := by simpa using List.find?_some hfind
+    rw [hts] at hr
+    unfold generateTaskRefs at hr
+    rw [StatusLemmas.mem_sortTaskRefs] at hr
+    rcases List.mem_append.mp hr with h | h
+    · obtain ⟨t', ht', rfl⟩ := List.mem_map.mp h
+      rw [StatusLemmas.getTaskRef_name, hok t' ht'] at hn
+      obtain ⟨s1, s2⟩ := getTaskRef_sub (lookupRef ex t'.name) t'
+      obtain ⟨f1, f2⟩ := s1 hp.1
+      obtain ⟨r1, r2⟩ := s2 hp.2
+      refine ⟨t', ht', hn, r1, f1, ?_, ?_⟩
+      · unfold getTaskRef
+        cases lookupRef ex t'.name <;> simp only <;> repeat' split
+        all_goals rfl
+      · intro e he
+        rw [← hn] at he
+        exact ⟨r2 e he, f2 e he⟩
+    · exfalso
+      obtain ⟨e, he, rfl⟩ := List.mem_map.mp h
+      have hnot := (List.mem_filter.mp he).2
+      have hname : (lostRef now e).name = e.name := by
+        unfold lostRef
+        cases e.finishTimestamp <;> cases e.deletedStatus <;> rfl
+      rw [hname] at hn
+      simp only [Bool.not_eq_true', ← Bool.not_eq_true] at hnot
+      rw [List.contains_iff_mem] at hnot
+      exact hnot (List.mem_map.mpr ⟨t, ht, hn.symm⟩)
 
 /-- a create call of a `syncJobTasks` pass: creation was allowed, the refreshed summary was not
 complete, and the call is for a due request of `computeMissingIndexesForCreation` on the cached
@@ -61,7 +137,7 @@ theorem taskOrigin_create (s : Sys) (jo : JobObj) (rj : Job) (c : Call) (ho : Ta
     rw [e.newCalls] at h
     obtain ⟨_, hr, _, hcan, hcomp, hreq⟩ := hall c h
     exact ⟨hr, hcan, hcomp, hreq⟩
-  | pending s1 rj1 tasks1 s' rj' l _ _ _ _ h =>
+  | pending s1 rj1 tasks1 s' rj' l _ _ _ _ _ h =>
     obtain ⟨l', e, hall, _⟩ := handlePendingTasks_ext s' jo rj' tasks1
     rw [e.newCalls] at h
     rw [(hall c h).1] at hv; simp at hv
@@ -82,7 +158,7 @@ theorem taskOrigin_verb (s : Sys) (jo : JobObj) (rj : Job) (c : Call) (ho : Task
     obtain ⟨l, e, _, _, hall, _⟩ := syncCreateTasks_ext s jo rj (tasks0 s jo rj)
     rw [e.newCalls] at h
     exact ⟨(hall c h).2.1, Or.inl (hall c h).1⟩
-  | pending s1 rj1 tasks1 s' rj' l _ _ _ _ h =>
+  | pending s1 rj1 tasks1 s' rj' l _ _ _ _ _ h =>
     obtain ⟨l', e, hall, _⟩ := handlePendingTasks_ext s' jo rj' tasks1
     rw [e.newCalls] at h
     exact ⟨(hall c h).2.1, Or.inr (hall c h).1⟩
@@ -100,17 +176,17 @@ creation step, justified by the pending timeout, the kill condition, or the forc
 theorem taskOrigin_delete (s : Sys) (jo : JobObj) (rj : Job) (c : Call) (ho : TaskCallOrigin s jo rj c)
     (hv : c.verb = "delete") :
     c.res = "pods" ∧ ∃ s1 rj1 tasks1, syncCreateTasks s jo rj (tasks0 s jo rj) = (s1, some (rj1, tasks1)) ∧
-      SpecLe rj rj1 ∧ ∃ t ∈ tasks1, t.name = c.name ∧ DeleteReason s rj rj1 c t := by
+      SpecLe rj rj1 ∧ ∃ t ∈ tasks1, t.name = c.name ∧ DeleteReason s rj rj1 tasks1 c t := by
   cases ho with
   | create h =>
     obtain ⟨l, e, _, _, hall, _⟩ := syncCreateTasks_ext s jo rj (tasks0 s jo rj)
     rw [e.newCalls] at h
     rw [(hall c h).1] at hv; simp at hv
-  | pending s1 rj1 tasks1 s' rj' l hcr hext hle hss h =>
+  | pending s1 rj1 tasks1 s' rj' l hcr hext hle hss hts h =>
     obtain ⟨l', e, hall, _⟩ := handlePendingTasks_ext s' jo rj' tasks1
     rw [e.newCalls] at h
     obtain ⟨_, hr, hf, T, hT, hpos, t, ht, hn, hp, hd, hdt⟩ := hall c h
-    refine ⟨hr, s1, rj1, tasks1, hcr, hle, t, ht, hn, .pendingTimeout T hf ?_ hpos hp ?_ hdt⟩
+    refine ⟨hr, s1, rj1, tasks1, hcr, hle, t, ht, hn, .pendingTimeout T rj' hf ?_ hpos hts hp ?_ hdt⟩
     · rw [← hT, hext.cfg]
       exact (getPendingTimeout_congr (hss.template.trans hle.template) _).symm
     · rw [← hext.clock]; exact hd
